@@ -22,6 +22,7 @@ import (
 
 	"github.com/samsarahq/thunder/batch"
 	"github.com/samsarahq/thunder/concurrencylimiter"
+	"verifharness/pkg/panics"
 	"verifharness/pkg/sched"
 	"verifharness/pkg/vh"
 )
@@ -116,11 +117,11 @@ func newCB(e *env, spec *CBSpec) *cbState {
 				rs, rsi = append(rs, 0), append(rsi, 0)
 			}
 			o := "(B.ORes " + intList(rsi) + ")"
-			switch out {
-			case "err":
+			switch {
+			case out == "err":
 				o = "B.OErr"
-			case "panic":
-				o = "B.OPanic"
+			case panics.Is(out):
+				o = "(B.OPanic B." + panics.Coq(out) + ")"
 			}
 			if gs != nil && gs.cbCall != nil {
 				cb.final[gs.cbCall.bg] = true
@@ -130,11 +131,11 @@ func newCB(e *env, spec *CBSpec) *cbState {
 			e.stats["cb-many-"+out]++
 			e.mu.Unlock()
 			cb.hookMu.Unlock()
-			switch out {
-			case "err":
+			if panics.Is(out) {
+				panics.Do(out, len(ints))
+			}
+			if out == "err" {
 				return nil, errCBUser
-			case "panic":
-				panic("boom")
 			}
 			return rs, nil
 		},
@@ -322,10 +323,10 @@ func cbRet(v interface{}, err error, outcome string) string {
 	case errors.Is(err, context.Canceled):
 		return "(B.RErr B.ECtx)"
 	}
-	switch outcome {
-	case "panic":
+	switch {
+	case panics.Is(outcome):
 		return "(B.RErr B.EPanic)"
-	case "short", "long":
+	case outcome == "short", outcome == "long":
 		return "(B.RErr B.EWrongLen)"
 	}
 	return "B.RIndexPanic"
@@ -411,7 +412,7 @@ func (e *env) invoke(gs *gstate, sc scope, op Op) {
 			e.fail("wrong-error-kind", fmt.Sprintf("Invoke(%d) got Many's error, outcome %q", call.arg, out))
 		}
 	default:
-		if out != "panic" && out != "short" && out != "long" {
+		if !panics.Is(out) && out != "short" && out != "long" {
 			e.fail("wrong-error-kind", fmt.Sprintf("Invoke(%d) got %v, outcome %q", call.arg, call.err, out))
 		}
 	}
@@ -655,7 +656,7 @@ func genCB(r *vh.Rng) *Case {
 	c := &Case{Limit: []int{1, 1, 1, 2, 2, 3}[r.Intn(6)], Mode: "cb", SchedSeed: r.U64() >> 1, Origin: "composed"}
 	spec := &CBSpec{MaxSize: []int{0, 0, 1, 2, 2, 3}[r.Intn(6)], Shards: 1 + r.Intn(2), Cancels: []int{0, 0, 1, 2}[r.Intn(4)]}
 	for k := 1 + r.Intn(3); k > 0; k-- {
-		spec.Outcomes = append(spec.Outcomes, r.Pick([]string{"ok", "ok", "ok", "ok", "err", "panic", "short", "long"}))
+		spec.Outcomes = append(spec.Outcomes, r.Pick([]string{"ok", "ok", "ok", "ok", "ok", "err", "short", "long", "panic", "panic-error", "panic-rt-nilmap", "panic-rt-index", "panic-custom"}))
 	}
 	c.CB = spec
 	nArg := 0
@@ -711,7 +712,7 @@ func genCB(r *vh.Rng) *Case {
 // everyone waits with the token given up, the group ends in every way Invoke can end
 func genCBScript(r *vh.Rng) *Case {
 	c := &Case{Limit: 1 + r.Intn(2), Mode: "cb", SchedSeed: r.U64() >> 1, Origin: "composed-script"}
-	out := r.Pick([]string{"ok", "err", "panic", "short", "long"})
+	out := r.Pick([]string{"ok", "err", "panic", "panic-rt-nilptr", "panic-rt-assert", "short", "long"})
 	c.CB = &CBSpec{MaxSize: []int{0, 3, 4}[r.Intn(3)], Shards: 1, Outcomes: []string{out}, Cancels: r.Intn(2)}
 	c.Progs = append(c.Progs, []Op{{K: "acq", Body: []Op{
 		{K: "go", Body: []Op{{K: "inv", N: 2}, {K: "work"}}},
